@@ -9,7 +9,7 @@
    the LHS write) in full; and two refutations, each replayed on the implementation by the check. *)
 From Coq Require Import List ZArith Bool.
 Import ListNotations.
-From PV Require Import Fort.Syntax Fort.Sem C11.Access C11.Proofs C11.Ext C11.Order C11.Struct.
+From PV Require Import Fort.Syntax Fort.Sem C11.Access C11.Proofs C11.Ext C11.Order C11.Struct C11.StructX.
 
 (* core MiniFortran (assignments, IF, DO, EXIT/CYCLE/RETURN, regions, directives), all stores, all fuels *)
 Theorem C11_access_covers_reads_partial : forall fuel ss st st' tr c,
@@ -166,6 +166,56 @@ Example C11_struct_nonvacuous :
     = [(1%nat, READ); (1%nat, READ); (2%nat, READ); (3%nat, READ); (20%nat, WRITE)].
 Proof. exact struct_nonvacuous. Qed.
 Print Assumptions C11_struct_nonvacuous.
+
+(* structure accesses as a first-class expression form (StructX.v): anywhere an expression may occur — array subscripts,
+   intrinsic arguments, DO bounds/step, conditions, call arguments, nested in another structure access — in arbitrarily
+   nested assignments / IF / DO / calls; any [enc], callee behaviour [outs], store, fuel, location counter, block kind *)
+Theorem C11_fstruct_covers_partial : forall enc outs fuel bump b loc s s' tr c,
+  fsafe_block b = true -> fexec enc outs fuel b s = Ok s' tr c -> bcovers tr (fst (facc_block enc bump b loc)).
+Proof. exact fexec_covers_. Qed.
+Print Assumptions C11_fstruct_covers_partial.
+
+Theorem C11_fref_subscripts_reported : forall enc p x,
+  In x (fpath_reads enc p) ->
+  (forall e loc, In x (fexpr_reads enc e) -> is_read x (reads_at loc (fexpr_reads enc e)) = true) /\
+  In x (fexpr_reads enc (FRef p)) /\
+  (forall a ix0 o e2 f, In x (fexpr_reads enc (FIdx a (ECons (FRef p) ix0))) /\
+                        In x (fexpr_reads enc (FBin o (FRef p) e2)) /\
+                        (is_inquiry f = false -> In x (fexpr_reads enc (FIntr f (ECons e2 (ECons (FRef p) ENil))))) /\
+                        In x (fexpr_reads enc (FRef (PCons a (ECons (FRef p) ENil) PNil)))) /\
+  (forall t loc, is_read x (fst (facc_stmt enc (FAssign (FTRef p) t) loc)) = true) /\
+  (forall k its loc, is_read x (fst (facc_stmt enc (FCall k its (ECons (FRef p) ENil)) loc)) = true).
+Proof. exact fref_subscripts_reported_. Qed.
+Print Assumptions C11_fref_subscripts_reported.
+
+(* order: the subscript reads of all components precede the access of the signature (report and trace) *)
+Theorem C11_struct_order : forall enc p,
+  fexpr_reads enc (FRef p) = fpath_reads enc p ++ [enc (StructX.psig p)] /\
+  (forall e loc, exists pre,
+      fst (facc_stmt enc (FAssign (FTRef p) e) loc) =
+      pre ++ reads_at loc (fpath_reads enc p) ++ [mkAcc (enc (StructX.psig p)) WRITE loc]) /\
+  (forall s vs, fpevals enc s p = Some vs -> fereads enc s (FRef p) = fpreads enc s p ++ [(enc (StructX.psig p), vs)]) /\
+  (forall s l, In l (fpreads enc s p) -> In (fst l) (fpath_reads enc p)).
+Proof. exact fstruct_order_. Qed.
+Print Assumptions C11_struct_order.
+
+(* do i = 1, g(k)%n ; a(s%idx(i)) = max(t(i)%v(j), 0) ; end do *)
+Example C11_fstruct_nonvacuous :
+  fsafe_block fx_prog = true /\
+  match fexec (enc_tbl2 fx_tbl) (fun _ => 0%Z) 10 fx_prog fx_store with
+  | Ok s' tr c =>
+      val s' (3%nat, [4%Z]) = 0%Z /\ val s' (3%nat, [6%Z]) = 9%Z /\ c = CNormal /\
+      reads tr = [(1%nat, []); (20%nat, [2%Z]);
+                  (0%nat, []); (2%nat, []); (22%nat, [1; 5]%Z); (0%nat, []); (21%nat, [1%Z]);
+                  (0%nat, []); (2%nat, []); (22%nat, [2; 5]%Z); (0%nat, []); (21%nat, [2%Z])] /\
+      writes tr = [(0%nat, []); (3%nat, [4%Z]); (0%nat, []); (3%nat, [6%Z]); (0%nat, [])]
+  | _ => False
+  end /\
+  map (fun a => (a_sig a, a_kind a, a_loc a)) (fst (facc_block (enc_tbl2 fx_tbl) false fx_prog 0)) =
+    [(0, WRITE, 0); (0, READ, 0); (1, READ, 0); (20, READ, 0);
+     (0, READ, 1); (2, READ, 1); (22, READ, 1); (0, READ, 1); (21, READ, 1); (3, WRITE, 1)]%nat.
+Proof. exact fstruct_nonvacuous. Qed.
+Print Assumptions C11_fstruct_nonvacuous.
 
 (* regenerated obligation (props/C12/translate.py -> coq/C12/GenTables.v, shared with C09/C12/C13): every intrinsic of the
    tree under test is known to the frozen table of the Fortran standard's inquiry functions, and none is flagged
